@@ -3,6 +3,7 @@ package props
 import (
 	"context"
 	"fmt"
+	"strings"
 	"sync"
 	"testing"
 	"testing/synctest"
@@ -273,6 +274,11 @@ func runSync(t *testing.T, s SyncScenario, c03 bool) (res Result) {
 					if isGossip[j] {
 						if gerrs[j] == nil {
 							ack(tip)
+						} else if !strings.Contains(gerrs[j].Error(), "known header") {
+							// the chain's own tip: taken, or known because a concurrent delivery or Head() caller was
+							// faster - never refused for any other reason (e.g. "busy with another candidate")
+							res.failf("%s: the chain's tip %d, delivered %d times concurrently, was refused with %v", tag, tip, ev.K, gerrs[j])
+							return
 						}
 						continue
 					}
